@@ -11,6 +11,7 @@ import (
 	"sync"
 	"sync/atomic"
 	"testing/synctest"
+	"time"
 )
 
 // ErrAborted is returned from park points when the run is torn down.
@@ -38,6 +39,8 @@ type Task struct {
 	Obj    any
 	parked bool
 	Held   bool // kept parked by the check (forced "late" task)
+	// WakeAt: the simulated time at which the task's condition becomes true by itself (a deadline or a pause); zero = never
+	WakeAt time.Time
 }
 
 // Action is something the scheduler can choose.
@@ -50,18 +53,19 @@ type Action struct {
 type Sim struct {
 	Tape *Tape
 
-	mu      sync.Mutex
-	tasks   map[uint64]*Task
-	byName  map[string]*Task
-	step    int
-	log     []Event
-	logSeq  map[string]int
-	abort   bool
-	Serial  bool // serial mode (park points block); false = pass-through (free running)
-	Steps   int
-	NoLog   bool
-	Counter map[string]int // fault/probe counters
-	names   map[string]int
+	mu       sync.Mutex
+	tasks    map[uint64]*Task
+	byName   map[string]*Task
+	step     int
+	log      []Event
+	logSeq   map[string]int
+	abort    bool
+	Serial   bool // serial mode (park points block); false = pass-through (free running)
+	Steps    int
+	NoLog    bool
+	Counter  map[string]int // fault/probe counters
+	names    map[string]int
+	advanced time.Duration
 	// tearing: teardown wakes every parked task at once; what they do then runs in real parallel and is not part of the run
 	tearing atomic.Bool
 }
@@ -199,6 +203,16 @@ func (s *Sim) CurrentTask() string {
 // when the task may be released (nil = always). Returns true if the run is
 // being torn down.
 func (s *Sim) Park(name string, where string, obj any, cond func() bool) bool {
+	return s.ParkT(name, where, obj, cond, time.Time{})
+}
+
+// ParkUntil parks the calling goroutine until the simulated clock has reached t.
+func (s *Sim) ParkUntil(name string, where string, t time.Time) bool {
+	return s.ParkT(name, where, nil, func() bool { return !time.Now().Before(t) }, t)
+}
+
+// ParkT is Park for a condition that also becomes true when the simulated clock reaches wakeAt.
+func (s *Sim) ParkT(name string, where string, obj any, cond func() bool, wakeAt time.Time) bool {
 	if !s.Serial {
 		return false
 	}
@@ -211,6 +225,7 @@ func (s *Sim) Park(name string, where string, obj any, cond func() bool) bool {
 	t.Where = where
 	t.Obj = obj
 	t.cond = cond
+	t.WakeAt = wakeAt
 	t.parked = true
 	s.mu.Unlock()
 	ab := <-t.wake
@@ -254,6 +269,53 @@ func (s *Sim) Runnable() []*Task {
 		}
 	}
 	return out
+}
+
+// NextWake returns the earliest simulated time at which a parked task (not held by the check) wakes by itself.
+func (s *Sim) NextWake() (time.Time, bool) {
+	var best time.Time
+	for _, t := range s.Parked() {
+		if t.Held || t.WakeAt.IsZero() {
+			continue
+		}
+		if best.IsZero() || t.WakeAt.Before(best) {
+			best = t.WakeAt
+		}
+	}
+	return best, !best.IsZero()
+}
+
+// maxAdvance bounds how far the simulated clock is moved in one run (the bubble clock is an int64 of nanoseconds).
+const maxAdvance = 50 * 365 * 24 * time.Hour
+
+// Advance moves the simulated clock forward by d: the calling (harness) goroutine sleeps inside the bubble
+// while every other goroutine is parked, so the fake clock jumps and the timers that are due fire.
+func (s *Sim) Advance(d time.Duration) {
+	if d <= 0 || s.advanced+d > maxAdvance {
+		return
+	}
+	s.advanced += d
+	s.Count("clock_advances")
+	s.Logf("sched", "clock +%s", d)
+	time.Sleep(d)
+}
+
+// AdvanceToNextWake jumps the clock to the next moment a parked task is waiting for (discrete-event step).
+// It returns false when nobody waits for time.
+func (s *Sim) AdvanceToNextWake() bool {
+	t, ok := s.NextWake()
+	if !ok {
+		return false
+	}
+	d := time.Until(t)
+	if d <= 0 {
+		return true // due already: the task is runnable
+	}
+	if s.advanced+d > maxAdvance {
+		return false
+	}
+	s.Advance(d)
+	return true
 }
 
 // Release lets a parked task run until its next park point.
